@@ -12,6 +12,7 @@ from translate import rate_constants
 
 TPS = 1024          # ticks per second of the model clock; all readings are k/1024 s (dyadic → float-exact)
 KNOWN_SIG = 'C20-full-bucket-stale-clock'
+INFLIGHT_SIG = 'C20-inflight-read-grants'
 
 
 class _Clock:
@@ -321,9 +322,25 @@ def _run_wire(case: dict) -> dict:
                 co = conn.send_file(Src(case['size']))
             else:
                 r = asyncio.StreamReader()
-                r.feed_data(b'y' * case['size'])
+                plan = (case.get('feeds') or [None] * case['k'])[i]
+                if plan is None:
+                    r.feed_data(b'y' * case['size'])             # everything is there already: reads are never short
+                else:
+                    async def feeder(r=r, plan=plan):             # packets arrive when the peer sends them: short reads, stalls
+                        for at, n in plan:
+                            await asyncio.sleep(max(0.0, t0 + at - loop.time()))
+                            r.feed_data(b'y' * n)
+                    tasks.append(asyncio.ensure_future(feeder()))
                 conn._reader = r
-                co = conn.receive_file(Sink(), case['size'], callback=lambda d: log.append((loop.time(), len(d))))
+                granted_at = [None]
+                _rd = conn.receive_data
+
+                async def receive_data(nb, _rd=_rd, granted_at=granted_at):
+                    granted_at[0] = loop.time()              # the tokens for this read have just been granted
+                    return await _rd(nb)
+                conn.receive_data = receive_data
+                co = conn.receive_file(Sink(), case['size'],
+                                       callback=lambda d, g=granted_at: log.append((loop.time(), len(d), g[0])))
 
             async def run(i=i, co=co):
                 await asyncio.sleep(case['offsets'][i])
@@ -340,7 +357,7 @@ def _run_wire(case: dict) -> dict:
         for t in tasks + [ctl]:
             t.cancel()
         await asyncio.gather(*tasks, ctl, return_exceptions=True)
-        return {'log': [(round(t - t0, 6), n) for t, n in log], 'done': done}
+        return {'log': [(round(e[0] - t0, 6), e[1]) + ((round(e[2] - t0, 6),) if len(e) > 2 and e[2] is not None else ()) for e in log], 'done': done}
     res, _ = simloop.run(main, wall_timeout=90)
     return res
 
@@ -358,9 +375,14 @@ def _monitor_wire(case: dict, res: dict) -> list[Violation]:
             if a <= t:
                 cur = k
         return cur * 1024
+    # log entries: (time the bytes moved, bytes, time the tokens for them were granted). Uploads put a chunk on the wire in the
+    # step in which it was granted; a download takes its tokens BEFORE the read and the bytes move when the peer delivers them.
     agg: dict = {}
-    for t, b in res['log']:
-        agg[t] = agg.get(t, 0) + b
+    for e in res['log']:
+        t, b_, tg = (e[0], e[1], e[2] if len(e) > 2 else e[0])
+        a_ = agg.setdefault(t, [0, []])
+        a_[0] += b_
+        a_[1].append((b_, tg))
     log = sorted(agg.items())
     n = len(log)
     q = 128
@@ -375,44 +397,49 @@ def _monitor_wire(case: dict, res: dict) -> list[Violation]:
                 if lims[s_] != 0 and (lims[m] == 0 or lims[m] > lims[s_]):
                     s_ = m
         return s_
-    def F(t):                     # ∫_0^t L
-        tot_, m = 0.0, 0
-        for m in range(len(starts)):
-            end = starts[m + 1] if m + 1 < len(starts) else float('inf')
-            if t <= starts[m]:
-                break
-            tot_ += lims[m] * (min(t, end) - starts[m])
-        return tot_
     segs = [seg_of(t) for t, _ in log]
-    Fs = [F(t) for t, _ in log]
+    known = None
     for i in range(n):
         if lims[segs[i]] == 0:
             continue
-        tot, mx, si = 0, 0, segs[i]
+        tot, pre, mx, si = 0, 0, 0, segs[i]
+        t1 = log[i][0]
         for j in range(i, n):
             sj = segs[j]
             if lims[sj] == 0:
                 break
-            if lims[sj] > mx:
-                mx = lims[sj]
-            tot += log[j][1]
-            bound = Fs[j] - Fs[i] + mx + q * (sj - si + 1)
-            if tot > bound + 1e-6:
-                t1, t2 = log[i][0], log[j][0]
-                vs.append(Violation('C20-window-exceeded', f'{case["dir"]}load, {case["k"]} connection(s): {tot} bytes on the wire in '
-                                    f'[{t1:.3f}, {t2:.3f}] s, allowed {bound:.0f} (limits {changes})', case,
-                                    observed={'bytes': tot, 'from': t1, 'to': t2}, required=f'<= {bound:.0f}'))
+            mx = max([mx] + lims[si:sj + 1])
+            tot += log[j][1][0]
+            pre += sum(b_ for b_, tg in log[j][1][1] if tg < t1 - 1e-9)     # granted before the window began (reads in flight)
+            t2 = log[j][0]
+            # `C20_window_piecewise_partial`: Lmax·T + Lmax + one quantum at the start and per limit change
+            bound = mx * (t2 - t1) + mx + q * (sj - si + 1)
+            if tot - pre > bound + 1e-6:
+                vs.append(Violation('C20-window-exceeded', f'{case["dir"]}load, {case["k"]} connection(s): {tot - pre} bytes granted and '
+                                    f'moved in [{t1:.3f}, {t2:.3f}] s (+ {pre} granted earlier), allowed {bound:.0f} '
+                                    f'(limits {changes})', case,
+                                    observed={'bytes': tot - pre, 'granted_earlier': pre, 'from': t1, 'to': t2}, required=f'<= {bound:.0f}'))
                 return vs
+            if tot > bound + 1e-6 and known is None:
+                known = Violation(INFLIGHT_SIG, f'download, {case["k"]} connection(s): {tot} bytes moved in [{t1:.3f}, {t2:.3f}] s, '
+                                  f'allowed {bound:.0f}; {pre} of them were granted before the window began (reads in flight: '
+                                  f'tokens are taken before the read, the bytes move when the peer delivers them)', case,
+                                  observed={'bytes': tot, 'granted_earlier': pre, 'from': t1, 'to': t2}, required=f'<= {bound:.0f}')
+    if known is not None:
+        vs.append(known)
     # no limit at the end: everything still to send goes out at once; positive limit: keeps moving
     last_at, last_k = changes[-1]
-    total = case['size'] * case['k']
-    moved = sum(b for _, b in log)
+    feeds = case.get('feeds') or [None] * case['k']
+    total = sum(case['size'] if pl is None else min(case['size'], sum(n for _a, n in pl)) for pl in feeds)   # what the peers supply
+    moved = sum(v[0] for _, v in log)
+    if not any(pl is None for pl in feeds):
+        return vs                     # every peer only trickles: how much moves is up to them (window bound judged above)
     tail = case['seconds'] - max(last_at, max(case['offsets']))
     if last_k == 0 and tail >= 1.0 and moved < total:
         vs.append(Violation('C20-unlimited-throttled', f'limit lifted at {last_at}s but only {moved} of {total} bytes moved '
                             f'{tail:.1f}s later', case, observed={'moved': moved, 'done': res['done']}))
     if last_k > 0 and tail >= 3.0 and moved < total:
-        after = sum(b for t, b in log if t >= max(last_at, max(case['offsets'])) + 1.0)
+        after = sum(v[0] for t, v in log if t >= max(last_at, max(case['offsets'])) + 1.0)
         expect = 0.5 * last_k * 1024 * (tail - 1.0)
         if after < min(expect, total - moved + after) * 0.5:
             vs.append(Violation('C20-starved', f'limit {last_k} KiB/s for the last {tail:.1f}s but only {after} bytes moved in it', case,
@@ -428,12 +455,41 @@ def _gen_wire(rng: random.Random) -> dict:
     # change instants sit between the 10 ms polling grid points of the connections (offsets 0 / 1 ms / 0.3 s)
     ats = sorted(rng.choice([0.2, 0.5, 1.0, 1.5, 2.5, 4.0]) + rng.randrange(30) * 0.01 + 0.005 for _ in range(nchg))
     changes = [[round(a, 3), rng.choice(lims)] for a in ats]
-    return {'kind': 'wire', 'dir': rng.choice(['up', 'down']), 'k': k, 'start': start, 'changes': changes,
+    case = {'kind': 'wire', 'dir': rng.choice(['up', 'down']), 'k': k, 'start': start, 'changes': changes,
             'size': rng.choice([2048, 65536, 524288, 4 * 1024 * 1024]), 'seconds': (ats[-1] if ats else 1.0) + rng.choice([1.5, 3.5, 6.0]),
             'offsets': [rng.choice([0, 0, 0.001, 0.3]) for _ in range(k)]}
+    if case['dir'] == 'down' and rng.random() < 0.6:
+        # what the peers really send: some connections have everything available at once, others get small packets late
+        # (reads that were started long before — possibly under another limit — return short)
+        feeds = []
+        for _ in range(k):
+            r = rng.random()
+            if r < 0.4:
+                feeds.append(None)
+            else:
+                t, plan = 0.0, []
+                for _ in range(rng.randint(1, 12)):
+                    t += rng.choice([0.0, 0.013, 0.1, 0.5, 0.5, 1.0, 2.0])
+                    plan.append([round(t, 3), rng.choice([1, 50, 100, 100, 127, 128, 129, 1000, 8191, 8192, 20000])])
+                feeds.append(plan)
+        case['feeds'] = feeds
+        if changes and rng.random() < 0.5:
+            # a peer with everything available that only starts after a limit change (one that starts while no limit is in
+            # force is done at once): it is the traffic that can use whatever the others leave or hand back
+            fl = [i for i, pl in enumerate(feeds) if pl is None] or [0]
+            feeds[fl[0]] = None
+            case['offsets'][fl[0]] = round(rng.choice(changes)[0] + rng.choice([0.05, 0.1, 0.5]), 3)
+        case['seconds'] = max(case['seconds'], max([pl[-1][0] for pl in feeds if pl] or [0]) + 2.0)
+    return case
 
 
+# known finding: two downloads are granted 128 B each and then wait 3 s for their peers (the bucket refills meanwhile);
+# when the data comes, the 2 x 128 B granted long ago move together with a whole fresh bucket
+INFLIGHT_WITNESS = {'kind': 'wire', 'dir': 'down', 'k': 3, 'start': 1, 'changes': [], 'size': 65536, 'seconds': 6.0,
+                    'offsets': [0, 0, 0], 'feeds': [[[3.0, 65536]], [[3.0, 65536]], [[3.0, 65536]]]}
 WIRE_WITNESSES = [
+    {'kind': 'wire', 'dir': 'down', 'k': 3, 'start': 0, 'changes': [[0.505, 4]], 'size': 4 * 1024 * 1024, 'seconds': 7.0,
+     'offsets': [0.6, 0, 0], 'feeds': [None, [[3.0, 100]], [[3.5, 100], [4.0, 100]]]},
     {'kind': 'wire', 'dir': 'up', 'k': 1, 'start': 200, 'changes': [[1.0, 10]], 'size': 4 * 1024 * 1024, 'seconds': 4.5, 'offsets': [0]},
     {'kind': 'wire', 'dir': 'up', 'k': 2, 'start': 0, 'changes': [[0.5, 10]], 'size': 4 * 1024 * 1024, 'seconds': 4.0, 'offsets': [0, 0]},
     {'kind': 'wire', 'dir': 'down', 'k': 1, 'start': 200, 'changes': [[1.0, 10]], 'size': 4 * 1024 * 1024, 'seconds': 4.5, 'offsets': [0]},
@@ -601,7 +657,7 @@ GAPS = [0, 0, 1, 1, 2, 5, 10, 11, 11, 12, 20, 64, 512, 1024, 1025, 5000, 3600 * 
 
 
 def _gen_case(rng: random.Random, size: int) -> dict:
-    kind = rng.choice(['lone', 'fair', 'fair', 'multi', 'changes', 'changes', 'burst', 'offon'])
+    kind = rng.choice(['lone', 'fair', 'fair', 'multi', 'changes', 'changes', 'burst', 'offon', 'sniper'])
     limits = [1, 1, 2, 3, 7, 50, 100, 1000, 9999, 10000, rng.randint(1, 10000)]
     k0 = rng.choice(limits + [0])
     ops: list = [['new', k0, rng.choice([0, 1, 1023, 1024, 5000, 10 ** 6, rng.randint(0, 10 ** 7)])]]
@@ -616,6 +672,47 @@ def _gen_case(rng: random.Random, size: int) -> dict:
         ops[0][1] = rng.choice([1, 1, 2, 3, 50])
         for _ in range(max(n, 40)):
             ops.append(['poll', rng.randrange(k), rng.choice([11, 11, 12, 13, 20])])
+    elif kind == 'sniper':
+        # poller 0 waits as the lock holder and re-polls every 11..13 ticks (the library's discipline); the others time their
+        # requests to arrive 1 tick before a poll of the holder, exactly when the bucket has accrued a whole quantum.
+        # With first-come-first-served they just queue up behind the holder and it is served within `need` polls.
+        k0 = rng.choice([1, 1, 2])
+        L, q = k0 * 1024, 128
+        ops[0][1] = k0
+        st = {'b': 0, 'last': 0}
+        now = ops[0][2]
+
+        def sim(st, t, take):            # rate_limiter.refill + grant, integer arithmetic on the tick grid
+            b, last = st['b'], st['last']
+            if b != L:
+                b = min(L, b + (L - b) * (t - last) // TPS)
+                last = t
+            if b >= q and take:
+                b -= q
+            st['b'], st['last'] = b, last
+            return b
+        # drain whatever the first refill credits (last_refill starts at 0)
+        burst = 8 * k0 + 1
+        ops.append(['poll', 0, 0])
+        for _ in range(burst + 2):
+            ops.append(['poll', rng.randint(1, 3), 0])
+        st = {'b': 0, 'last': now}
+        ops.append(['poll', 0, 0])                      # poller 0: bucket empty -> holder, asleep
+        free = [1, 2, 3]
+        for _ in range(rng.choice([60, 120])):
+            gap = rng.choice([11, 11, 12, 13])
+            probe = dict(st)
+            if free and sim(probe, now + gap - 1, False) >= q:
+                sn = free[0]
+                ops.append(['poll', sn, gap - 1])        # the sniper's request, 1 tick before the holder's poll
+                sim(st, now + gap - 1, True)             # (if it jumps the queue it takes the quantum and resets the clock)
+                ops.append(['poll', 0, 1])
+                sim(st, now + gap, True)
+                free = free[1:] + [sn]
+            else:
+                ops.append(['poll', 0, gap])
+                sim(st, now + gap, True)
+            now += gap
     elif kind == 'offon':
         # a small limit, the bucket drained at one instant, then the limit is switched off and on again / re-applied /
         # raised / lowered (possibly while requests are pending), each time followed by another burst at the same instant
@@ -643,7 +740,7 @@ def _gen_case(rng: random.Random, size: int) -> dict:
                 ops.append(['set', rng.choice(limits + [0, 0])])
             else:
                 ops.append(['poll', rng.randint(0, 3), rng.choice(GAPS)])
-    return {'ops': ops, 'lone': kind == 'lone', 'disciplined': kind in ('lone', 'fair'), 'kind': kind}
+    return {'ops': ops, 'lone': kind == 'lone', 'disciplined': kind in ('lone', 'fair', 'sniper'), 'kind': kind}
 
 
 def _gen_free(rng: random.Random) -> dict:
@@ -780,7 +877,7 @@ class C20(Property):
         return _monitor(case, _eval_case(case))
 
     def known_witnesses(self):
-        return [(KNOWN_SIG, WITNESS)]
+        return [(KNOWN_SIG, WITNESS), (INFLIGHT_SIG, INFLIGHT_WITNESS)]
 
 
 PROPERTY = C20()
